@@ -93,6 +93,45 @@ impl<'m> IrConv<'m> {
                 }
                 node("op", v)
             }
+            ir::Expression::Call(id, ir::CallType::FreeFunction, args)
+                if self.m.function_registry.get_intrinsic_data(*id).is_some() =>
+            {
+                // intrinsic function with its resolved signature: (intr Name ret (types...) args...)
+                let fr = &self.m.function_registry;
+                let intr = fr.get_intrinsic_data(*id).as_ref().unwrap();
+                let sig = fr.get_function_signature(*id);
+                let name = format!("{:?}", intr);
+                if name.contains('(') || name.contains(' ') {
+                    return unsup("IntrinsicWithPayload");
+                }
+                if !is_modelled_intrinsic(&name) {
+                    return unsup("IntrinsicNotModelled");
+                }
+                let ret = match ir_type(self.m, sig.return_type.return_type) {
+                    Some(t) => t,
+                    None => return unsup("IntrinsicReturnType"),
+                };
+                let mut tys = Vec::new();
+                for p in &sig.param_types {
+                    if p.input_modifier != ir::InputModifier::In {
+                        return unsup("IntrinsicOutParam");
+                    }
+                    match ir_type(self.m, p.type_id) {
+                        Some(t) => tys.push(a(t.name())),
+                        None => return unsup("IntrinsicParamType"),
+                    }
+                }
+                if tys.is_empty() || tys.iter().any(|t| t != &tys[0]) {
+                    // e.g. `float min(float, int)`: a mixed signature has no single operand type
+                    return unsup("IntrinsicMixedParams");
+                }
+                hist.add(&format!("intr:{}", name));
+                let mut v = vec![a(&name), a(ret.name()), l(tys)];
+                for x in args {
+                    v.push(self.expr(x, hist));
+                }
+                node("intr", v)
+            }
             ir::Expression::Call(id, ir::CallType::FreeFunction, args) => {
                 let fr = &self.m.function_registry;
                 if fr.get_intrinsic_data(*id).is_some()
@@ -201,6 +240,31 @@ impl<'m> IrConv<'m> {
                 hist.add("stmt:DoWhile");
                 let v = vec![self.block(b, hist), self.expr(c, hist)];
                 node("dowhile", v)
+            }
+            ir::StatementKind::Switch(c, b) => {
+                hist.add("stmt:Switch");
+                let t = match c.get_type(self.m) {
+                    Ok(et) => ir_type(self.m, et.0),
+                    Err(_) => None,
+                };
+                match t {
+                    // a controlling expression the type checker left as IntLiteral (`switch (1 + 2)`): what its
+                    // run-time type is, is not defined by the IR; outside the model
+                    Some(T::Lit) | Some(T::Flit) => unsup("SwitchOnLiteral"),
+                    Some(t) => {
+                        let v = vec![a(t.name()), self.expr(c, hist), self.block(b, hist)];
+                        node("switch", v)
+                    }
+                    None => unsup("SwitchType"),
+                }
+            }
+            ir::StatementKind::CaseLabel(c) => {
+                hist.add("stmt:CaseLabel");
+                node("case", vec![self.constant(c)])
+            }
+            ir::StatementKind::DefaultLabel => {
+                hist.add("stmt:DefaultLabel");
+                node("default", vec![])
             }
             ir::StatementKind::Break => {
                 hist.add("stmt:Break");
@@ -421,7 +485,10 @@ pub fn ast_stmt(s: &ast::Statement) -> Sx {
         ast::StatementKind::Continue => node("continue", vec![]),
         ast::StatementKind::Return(None) => node("ret", vec![]),
         ast::StatementKind::Return(Some(e)) => node("ret", vec![ast_expr(&e.node)]),
-        ast::StatementKind::Empty => node("block", vec![]),
+        ast::StatementKind::Empty => node("empty", vec![]),
+        ast::StatementKind::Switch(c, b) => node("switch", vec![ast_expr(&c.node), ast_stmt(b)]),
+        ast::StatementKind::CaseLabel(e, st) => node("case", vec![ast_expr(&e.node), ast_stmt(st)]),
+        ast::StatementKind::DefaultLabel(st) => node("default", vec![ast_stmt(st)]),
         _ => unsup("Statement"),
     }
 }
